@@ -72,3 +72,41 @@ package metric
 //@   requires itr.groupStart >= 0 && itr.groupStart <= itr.groupEnd && itr.groupEnd <= len(itr.rows)
 //@   ensures familyTime == itr.groupFamilyTime && len(rows) == itr.groupEnd - itr.groupStart && forall(i, 0, len(rows), rows[i] == itr.rows[itr.groupStart + i])
 //@ end
+
+//@ func BrokerBatchRows.NewShardGroupIterator
+//@   prop C16
+//@   arith math
+//@   requires batchOK(br)
+//@   modifies br.rows[*], br.shardGroupIterator.batch, br.shardGroupIterator.groupStart, br.shardGroupIterator.groupEnd, br.shardGroupIterator.groupShardIdx
+//@   ensures[every_row_gets_the_shard_of_its_own_tags_hash] forall(i, 0, br.rowCount, br.rows[i].shardIdx == int(jumpHash(metricKvsHash(br.rows[i].m), numOfShards)))
+//@   ensures[shard_is_below_the_shard_count] numOfShards > 0 ==> forall(i, 0, br.rowCount, br.rows[i].shardIdx >= 0 && br.rows[i].shardIdx < int(numOfShards))
+//@   ensures[rows_are_only_permuted] forall(i, 0, br.rowCount, sortPerm(i) >= 0 && sortPerm(i) < br.rowCount && br.rows[i].m == old(br.rows[sortPerm(i)].m) && br.rows[i].IsOutOfTimeRange == old(br.rows[sortPerm(i)].IsOutOfTimeRange) && br.rows[i].buffer == old(br.rows[sortPerm(i)].buffer))
+//@   ensures[rows_of_a_shard_are_adjacent] forall(i, 1, br.rowCount, br.rows[i - 1].shardIdx <= br.rows[i].shardIdx)
+//@   ensures result.batch == br && result.groupStart == 0 && result.groupEnd == 0 && shardItrOK(result)
+//@   loop 1 invariant i >= 0 && i <= br.rowCount && batchOK(br)
+//@   loop 1 invariant forall(j, 0, i, br.rows[j].shardIdx == int(jumpHash(metricKvsHash(br.rows[j].m), numOfShards)))
+//@   loop 1 invariant forall(j, 0, len(br.rows), br.rows[j].m == old(br.rows[j].m) && br.rows[j].IsOutOfTimeRange == old(br.rows[j].IsOutOfTimeRange) && br.rows[j].buffer == old(br.rows[j].buffer))
+//@ end
+
+//@ # ---- conversion: tags sorted by key, a repeated key resolved to one value, before the row is hashed/built --
+//@ func BrokerRowProtoConverter.deDupTags
+//@   prop C16
+//@   arith math
+//@   requires m != nil && forall(i, 0, len(m.Tags), m.Tags[i] != nil)
+//@   modifies m.Tags, m.Tags[*]
+//@   ensures[keys_strictly_increasing_so_no_key_twice] forall(i, 1, len(m.Tags), m.Tags[i - 1] != nil && m.Tags[i] != nil && tag.strLess(m.Tags[i - 1].Key, m.Tags[i].Key))
+//@   ensures[not_longer_and_not_empty] len(m.Tags) <= old(len(m.Tags)) && (old(len(m.Tags)) >= 1 ==> len(m.Tags) >= 1)
+//@   ensures forall(i, 0, len(m.Tags), m.Tags[i] != nil)
+//@   loop 1 invariant high >= 1 && high <= len(m.Tags) && slow >= 0 && slow < high && forall(i, 0, len(m.Tags), m.Tags[i] != nil) && m.Tags == old(m.Tags)
+//@   loop 1 invariant forall(i, 1, slow + 1, tag.strLess(m.Tags[i - 1].Key, m.Tags[i].Key))
+//@   loop 1 invariant forall(i, high, len(m.Tags), !tag.strLess(m.Tags[i].Key, m.Tags[i - 1].Key)) && (high < len(m.Tags) ==> !tag.strLess(m.Tags[high].Key, m.Tags[slow].Key))
+//@ end
+//@ func BrokerBatchShardFamilyIterator.isSameFamily
+//@   prop C16
+//@   arith math
+//@   requires itr.intervalCalc != nil && forall(i, 0, len(itr.rows), tsOK(metricTs(itr.rows[i].m)))
+//@   modifies itr.groupFamilyTime
+//@   ensures[true_only_if_all_rows_lie_in_the_family_of_the_first] (result && len(itr.rows) > 0) ==> (itr.groupFamilyTime == kFamilyTime(calc_kind(itr.intervalCalc), metricTs(itr.rows[0].m)) && forall(i, 0, len(itr.rows), kFamilyTime(calc_kind(itr.intervalCalc), metricTs(itr.rows[0].m)) <= metricTs(itr.rows[i].m) && metricTs(itr.rows[i].m) <= kFamilyEnd(calc_kind(itr.intervalCalc), kFamilyTime(calc_kind(itr.intervalCalc), metricTs(itr.rows[0].m)))))
+//@   loop 1 invariant i >= 1 && i <= len(itr.rows) && timeRange.Start == kFamilyTime(calc_kind(itr.intervalCalc), metricTs(itr.rows[0].m)) && timeRange.End == kFamilyEnd(calc_kind(itr.intervalCalc), timeRange.Start) && itr.groupFamilyTime == timeRange.Start && timeRange.Start <= metricTs(itr.rows[0].m) && metricTs(itr.rows[0].m) <= timeRange.End
+//@   loop 1 invariant forall(j, 1, i, timeRange.Start <= metricTs(itr.rows[j].m) && metricTs(itr.rows[j].m) <= timeRange.End)
+//@ end
